@@ -4,7 +4,8 @@ functional on its underlier's spot with its own call/strike; R3 clauses fold ove
 R5 index hazard floor(start/dt).
 Added after the seeded-defect rounds: R6 a float strike / dt is compared with the prices unrounded; R7 payoff() keeps no memoised state; R3 the clause iterators may not filter or de-duplicate.
 Third round: R9 call histories of the clause / underlier registries on every derivative class, R9x every history of at most 2 (thorough: 3) registry operations against a reference model.
-Rounds 4-5: R2 also re-binding statements and exports of pfhedge.instruments."""
+Rounds 4-5: R2 also re-binding statements and exports of pfhedge.instruments.
+Round 7: R3 the fold over the clauses is accepted as the loop (any number of clauses) or, failing that, as the exact nesting for three registered clauses (composed closures, reduce)."""
 import ast
 
 import sympy as sp
